@@ -579,4 +579,31 @@ def r17_5(run):
     run.floor(4)
 
 
-RULES = [("R17.1", r17_1), ("R17.2", r17_2), ("R17.3", r17_3), ("R17.4", r17_4), ("R17.5", r17_5)]
+def r17_6(run):
+    """the tools only touch what they were asked to touch: element_junction_tuples is the work list of drop_elements_at_junctions and
+    of the reindexing tools; with include_node_elements, include_branch_elements and include_res_elements all False it lists
+    nothing -- every entry it adds is tied to one of the requested element kinds (a column that is added whenever its table exists
+    makes a tool change elements of a kind that was excluded)"""
+    from ..arrnf import ANF, show as tshow
+    ix = run.index
+    f = ix.func(TB + ".element_junction_tuples")
+    run.analysed(f)
+    ps = f.params()
+    flags = [p_ for p_ in ps if p_.startswith("include_")]
+    _sh(len(flags) >= 2, "element_junction_tuples has include_* flags")
+    w = run.where(f, f.node)
+    for net_known in (False, True):
+        consts = {p_: False for p_ in flags}
+        if not net_known and "net" in ps:
+            consts["net"] = None
+        r = ANF(ix, f, consts=consts).run()
+        adds = [c for c in r.calls() if c.fn[0] == "attr" and c.fn[2] in ("update", "add") and c.args
+                and not (c.args[0][0] in ("list", "tuple", "set") and not c.args[0][1])]
+        st = [e for e in r.stores() if e.aug]
+        run.ob("element_junction_tuples|nothing-requested-nothing-listed|%s" % ("net" if net_known else "no-net"), not adds and not st,
+               "with all include_* flags False no (table, column) pair is listed", run.where(f, adds[0].node) if adds else w,
+               detail=tshow(adds[0].term)[:200] if adds else None)
+    run.floor(2)
+
+
+RULES = [("R17.1", r17_1), ("R17.2", r17_2), ("R17.3", r17_3), ("R17.4", r17_4), ("R17.5", r17_5), ("R17.6", r17_6)]
